@@ -86,7 +86,13 @@ func calledFrom(stack []byte, within string) bool {
 // Returns the final states, or nil when the goroutines did not come to rest within the deadline.
 func settleGoroutines(gids []int64, within string, max time.Duration) []byte {
 	deadline := time.Now().Add(max)
+	last := time.Now()
 	for {
+		// a look that comes late (the whole process was held up) does not count against the goroutines
+		if d := time.Since(last); d > 300*time.Millisecond {
+			deadline = deadline.Add(d)
+		}
+		last = time.Now()
 		st := goStates(gids, within)
 		rest, anyB := true, false
 		for _, s := range st {
